@@ -5,15 +5,31 @@ package cloudprovider
 
 //@ pure compat(reqs scheduling.Requirements, o *Offering) bool
 //@ pure elig(reqs scheduling.Requirements, o *Offering) bool = o.Available && compat(reqs, o)
-//@ rec minPriceUpTo(ofs Offerings, n int, reqs scheduling.Requirements) real = n <= 0 ? math.MaxFloat64 : ((elig(reqs, ofs[n - 1]) && ofs[n - 1].Price < minPriceUpTo(ofs, n - 1, reqs)) ? ofs[n - 1].Price : minPriceUpTo(ofs, n - 1, reqs))
-//@ pure minPrice(it *InstanceType, reqs scheduling.Requirements) real = minPriceUpTo(it.Offerings, len(it.Offerings), reqs)
+//@ pure isMinUpTo(ofs Offerings, n int, reqs scheduling.Requirements, p real) bool = p <= math.MaxFloat64 && (forall k int {ofs[k]} :: (0 <= k && k < n && elig(reqs, ofs[k])) ==> p <= ofs[k].Price) && (p == math.MaxFloat64 || (exists k int {ofs[k]} :: 0 <= k && k < n && elig(reqs, ofs[k]) && ofs[k].Price == p))
+//@ pure isMinPrice(it *InstanceType, reqs scheduling.Requirements, p real) bool = isMinUpTo(it.Offerings, len(it.Offerings), reqs, p)
+//@ pure leqPrice(x *InstanceType, y *InstanceType, reqs scheduling.Requirements) bool = forall k int {y.Offerings[k]} :: (0 <= k && k < len(y.Offerings) && elig(reqs, y.Offerings[k])) ==> (math.MaxFloat64 <= y.Offerings[k].Price || (exists m int {x.Offerings[m]} :: 0 <= m && m < len(x.Offerings) && elig(reqs, x.Offerings[m]) && x.Offerings[m].Price <= y.Offerings[k].Price))
+//@ pure availAttained(ofs Offerings, n int, p real) bool = p <= math.MaxFloat64 && (p == math.MaxFloat64 || (exists k int {ofs[k]} :: 0 <= k && k < n && ofs[k].Available && ofs[k].Price == p))
 //@ pure offsOK(it *InstanceType) bool = it != nil && (forall k int {it.Offerings[k]} :: 0 <= k && k < len(it.Offerings) ==> (it.Offerings[k] != nil && scheduling.rsInv(it.Offerings[k].Requirements)))
+
+//@ lemma minPriceUnique [C19]: forall it *InstanceType, reqs scheduling.Requirements, p real, q real :: (isMinPrice(it, reqs, p) && isMinPrice(it, reqs, q)) ==> p == q
+//@ lemma leqPriceMeaning [C19]: forall x *InstanceType, y *InstanceType, reqs scheduling.Requirements, p real, q real :: (isMinPrice(x, reqs, p) && isMinPrice(y, reqs, q)) ==> (leqPrice(x, y, reqs) <==> p <= q)
 
 //@ func (InstanceTypes).OrderByPrice closure@sort.Slice
 //@   prop C19
 //@   requires 0 <= i && i < len(its) && 0 <= j && j < len(its)
 //@   requires offsOK(its[i]) && offsOK(its[j]) && scheduling.rsInv(reqs)
 //@   modifies nothing
-//@   ensures [exact] result == (minPrice(its[i], reqs) < minPrice(its[j], reqs))
-//@   loop 1 invariant iPrice == minPriceUpTo(its[i].Offerings, $i + 1, reqs)
-//@   loop 2 invariant jPrice == minPriceUpTo(its[j].Offerings, $i + 1, reqs)
+//@   site (Requirements).IsCompatible #1 requires [args1] $0 == reqs && $1 == of.Requirements && of.Available
+//@   site (Requirements).IsCompatible #2 requires [args2] $0 == reqs && $1 == of.Requirements && of.Available
+//@   ensures [iAvail] availAttained(its[i].Offerings, len(its[i].Offerings), iPrice)
+//@   ensures [jAvail] availAttained(its[j].Offerings, len(its[j].Offerings), jPrice)
+//@   ensures [compare] result == (iPrice < jPrice)
+//@   loop 1 invariant availAttained(its[i].Offerings, $i + 1, iPrice)
+//@   loop 2 invariant availAttained(its[j].Offerings, $i + 1, jPrice)
+
+//@ func (InstanceTypes).Truncate
+//@   prop C19
+//@   modifies *
+//@   site (InstanceTypes).OrderByPrice requires [input] $0 == its && $1 == requirements
+//@   site lo.Slice requires [prefix] $0 == @(InstanceTypes).OrderByPrice && $1 == 0 && $2 == maxItems
+//@   ensures [kept] result.1 == nil ==> result.0 == @lo.Slice
